@@ -37,6 +37,7 @@ def run(db, rep, feat, tier):
         rep.anchor(f in db.mir, f)
     r1(db, rep)
     r2(db, rep)
+    r2b(db, rep)
     r3(db, rep)
     r5(db, rep)
     r6(db, rep)
@@ -123,6 +124,27 @@ def r2(db, rep):
         else:
             r.decide(v == optval.T, "eq|%s" % case, db.where(hb),
                      "a memory compared with itself (%s) yields %s" % (case, optval.show(v)))
+
+
+def r2b(db, rep):
+    r = rep.rule("R2b", "K4", "Memory::eq compares the page maps as whole values (HashMap == HashMap), or, if it walks "
+                 "pages itself, also compares the number of pages (otherwise equality is a one-sided subset test and "
+                 "equal memories can answer loads differently)")
+    fn = "<memory::paged::Memory<V> as std::cmp::PartialEq>::eq"
+    whole = walks = lens = False
+    for d in bodies_under(db, fn):
+        body = db.mir[d]
+        for i, t in mir_calls(body):
+            f = t.get("f") or ""
+            fg = t.get("fg", "")
+            if f in ("std::cmp::PartialEq::eq", "std::cmp::PartialEq::ne") and fg.startswith("<std::collections::HashMap<u64"):
+                whole = True
+            if "HashMap" in f and last_seg(f) in ("iter", "keys", "values", "get", "into_iter"):
+                walks = True
+            if "HashMap" in f and last_seg(f) == "len":
+                lens = True
+    r.decide(whole or (walks and lens), "eq|pages", db.where(db.mir[fn]),
+             "page maps are compared page by page without comparing their sizes")
 
 
 def r3(db, rep):
@@ -281,6 +303,26 @@ def r6(db, rep):
             else:
                 r.open(key, db.where(body, t["l"]), "units not inferable (%s, %s)" % (ua, ub))
     rep.anchor(found >= 1, "loop comparison in set_permissions")
+    # exclusive end: `page < address + len` (or `page <= address + len - 1`)
+    from mirterm import strip_overflow
+    for i, b in enumerate(body["blocks"]):
+        t = b["t"]
+        if t["k"] != "SwitchInt":
+            continue
+        c = tm.operand(t["discr"])
+        if c[0] == "bin" and c[1] in ("Lt", "Le") and unit_of(c[2], seeds) == "A":
+            bound = strip_overflow(c[3])
+            addr_p = [p for p, u in seeds.items() if u == "A" and p[0] == "param"]
+            len_p = [p for p, u in seeds.items() if u == "L"]
+            if not addr_p or not len_p:
+                r.open("set_permissions|end", db.where(body, t["l"]), "address/length parameters not identified")
+                continue
+            plain = bound[0] == "bin" and bound[1] == "Add" and {bound[2], bound[3]} == {addr_p[0], len_p[0]}
+            if c[1] == "Lt":
+                r.decide(plain, "set_permissions|end", db.where(body, t["l"]),
+                         "with `<` the loop bound must be exactly address + len (exclusive end), found %s" % show(bound)[:100])
+            else:
+                r.open("set_permissions|end", db.where(body, t["l"]), "inclusive bound form not analysed")
 
 
 def r7(db, rep):
